@@ -56,13 +56,16 @@ def run(ck, prog):
         "return that symbol's define_loc / reference_locs unmodified (no filter, sort or dedup); the position map "
         "is written only by add_to_pos_to_symbol_map, called with exactly the location stored in the symbol; "
         "(R06.3) anonymous defs/defms never reach the position map; (R06.4) utils::identifier pairs "
-        "Identifier::value and Identifier::range of the same node with the current file. Not decided: which "
-        "symbol wins when two share one identifier range.")
+        "Identifier::value and Identifier::range of the same node with the current file; (R06.5) where one "
+        "identifier range is registered both as the definition of a new symbol and as a reference to another (a "
+        "`let` override of a field), the reference is registered last: the position map (iset insert = replace) "
+        "then resolves the range to the referenced symbol, whose reference list contains it.")
     ck.trusted = ["iset interval map returns the stored value for a covering interval"]
     for r, t in (("R06.1", "name and location come from one identifier token"),
                  ("R06.2", "one symbol table; handlers return the symbol's own locations unmodified"),
                  ("R06.3", "anonymous symbols are not in the position map"),
-                 ("R06.4", "utils::identifier: text and range of the same node, current file")):
+                 ("R06.4", "utils::identifier: text and range of the same node, current file"),
+                 ("R06.5", "a range that is both a reference and a definition resolves to the referenced symbol")):
         ck.rule(r, t)
 
     # ---- R06.1 constructors ----------------------------------------------------------
@@ -145,6 +148,49 @@ def run(ck, prog):
                   b.path, why, b.where(i)))
     ck.floor("R06.1", "add_reference sites", nr, 7)
 
+    # ---- R06.5 one range, two roles ------------------------------------------------------
+    # `let x = ..` in a record body: the identifier is a reference to the overridden field *and* the definition range
+    # of the overriding field. The position map keeps the last insertion for a range, and the reference lists still
+    # contain the range, so go-to-definition from it must lead to the referenced symbol: the reference goes in last.
+    ctor_sites = {}
+    for b, i, t in prog.call_sites(lambda c: bool(CTORS.match(c))):
+        if b.crate != "ide.rlib" or b.path.startswith("ide::tests"):
+            continue
+        cb = prog.body(Body.callee(t))
+        names = [cb.local_name(k) for k in range(1, cb.argc + 1)]
+        if "define_loc" not in names:
+            continue
+        src = {pair_source(o)[0] for o in prov.origins(b, t["args"][names.index("define_loc")])} - {None}
+        ctor_sites.setdefault(b.path, []).append((i, t, src))
+    nshared = 0
+    for b, i, t in prog.call_sites(lambda c: c == ADD_REF):
+        if b.crate != "ide.rlib" or b.path.startswith("ide::symbol_map"):
+            continue
+        rsrc = {pair_source(o)[0] for o in prov.origins(b, t["args"][2])} - {None}
+        for ci, ct, csrc in ctor_sites.get(b.path, []):
+            if not (rsrc & csrc):
+                continue
+            nshared += 1
+            # where the constructed symbol enters the symbol map
+            regs = []
+            for j, t2 in b.calls():
+                c2 = Body.callee(t2) or ""
+                if not re.match(r"^ide::symbol_map::SymbolMap::add_", c2) or c2 == ADD_REF:
+                    continue
+                for a in t2["args"][1:]:
+                    if any(x[0] == "call" and x[2] == ci for x in prov.origins(b, a)):
+                        regs.append(j)
+            after = b.reachable(t["t"]) if t["t"] is not None else set()
+            late = [j for j in regs if j in after]
+            ck.ob("R06.5", "shared-range:%s" % b.path, bool(regs) and not late,
+                  "the symbol defined at the shared range is registered before the reference to the other symbol",
+                  msg="%s: a range is registered as a reference (add_reference [%s]) and afterwards as the definition of a new "
+                      "symbol (%s [%s]); the position map keeps the last insertion, so go-to-definition from a range that "
+                      "find-references of the referenced symbol returns would lead to a different symbol" % (
+                          b.path, b.where(i), (Body.callee(b.term(late[0])) if late else "no registration found"),
+                          b.where(late[0]) if late else b.where(ci)))
+    ck.floor("R06.5", "ranges registered both as a definition and as a reference", nshared, 1)
+
     # ---- R06.2 handlers ------------------------------------------------------------------
     FIND = "ide::symbol_map::SymbolMap::find_symbol_at"
     for fn, getter in (("ide::handlers::goto_definition::exec", "define_loc"),
@@ -163,7 +209,34 @@ def run(ck, prog):
             for i, t in gets:
                 so = prov.origins(b, t["args"][0])
                 ok = ok and all(x[0] == "call" and x[1] == FIND for x in so)
-        # result: the getter's value, converted only by copy/to_vec
+        # result: the getter's value, converted only by copy/to_vec (hover pairs it with the rendered signature)
+        PASS = re.compile(r"::(to_vec|clone|to_owned|copied|cloned|collect|iter|into_iter)$")
+
+        def from_getter(op_or_local, depth=0):
+            out = []
+            for o in prov.origins(b, op_or_local):
+                if (o[0] == "call" and o[1].endswith("::from_residual")) or (o[0] == "agg" and str(o[1]).endswith("option::Option")):
+                    continue
+                if o[0] == "call" and o[1].endswith("Symbol::<'a>::" + getter):
+                    continue
+                if o[0] == "call" and PASS.search(o[1]) and depth < 4:
+                    out += from_getter(b.term(o[2])["args"][0], depth + 1)
+                    continue
+                out.append(o)
+            return out
+        if ok:
+            if fn.endswith("extract_symbol_signature"):
+                foreign = []
+                for o in prov.origins(b, 0):
+                    if o[0] == "agg" and o[1] == "tuple":
+                        st = [x for x in b.blocks[o[2]]["s"] if x.get("rv", {}).get("agg") == "tuple"]
+                        for x in st:
+                            if len(x["rv"]["ops"]) == 2:
+                                foreign += from_getter(x["rv"]["ops"][1])
+            else:
+                foreign = from_getter(0)
+            if foreign:
+                ok = False
         ro = prov.origins(b, 0)
         allowed = re.compile(r"Symbol::<'a>::%s$|to_vec$|String|format|alloc::fmt" % getter)
         mods = [Body.callee(t) for _, t in b.calls() if re.search(
